@@ -145,12 +145,20 @@ Definition observe_key (e : ep) (r : msg) (b : blk) (sent : option msg) : ep * Z
     end
   else (e, mtok r, true).
 
+(* repaired: asking for block [num] of a response (Block2) with a body-less copy of the request [sent] is
+   refused when num = 0 and the request is not a GET / DELETE: for a server that no longer holds the
+   response that message is a new request without its body *)
+Definition refuse_restart (isb1 : bool) (num : Z) (sent : option msg) : bool :=
+  negb isb1 && (num =? 0) &&
+  match sent with Some sr => negb ((mcode sr =? GET) || (mcode sr =? DELETE)) | None => false end.
+
 Section Handle.
   (* the application behind [next]: token of the wire message, delivered message -> response set on w *)
   Variable app : Z -> msg -> option msg.
 
-  (* processReceivedMessage; returns endpoint, writer, deliveries to [next] *)
-  Definition process_received (e : ep) (r : msg) (maxszx : Z) (isb1 : bool) : ep * outcome * list msg :=
+  (* processReceivedMessage; returns endpoint, writer, deliveries to [next].  [sent] is what getSentRequest
+     returns for the token of r (computed once, before the caches are touched) *)
+  Definition process_received_s (e : ep) (r : msg) (maxszx : Z) (isb1 : bool) (sent : option msg) : ep * outcome * list msg :=
     if (mcode r =? GET) || (mcode r =? DELETE) then (e, Out (app (mtok r) r), [r])
     else
     match (if isb1 then mb1 r else mb2 r) with
@@ -160,7 +168,6 @@ Section Handle.
       if isb1 && match mb2 r with Some b2 => negb (bnum b2 =? 0) | None => false end then (e, Fail, [])
       else (e, Out (app (mtok r) r), [r])
     | Some b =>
-      let sent := get_sent_request e (mtok r) in
       match (if isb1 then false else match sent with None => true | Some _ => false end) with
       | true => (e, Fail, [])   (* cannot request body without paired request *)
       | false =>
@@ -186,6 +193,11 @@ Section Handle.
           else
             let szx := Z.min szx0 maxszx in
             let psize := blen (mbody cm') in
+            (* repaired: the response of a request other than GET / DELETE is never fetched again from
+               block 0 (the buffer is empty: a block of another transfer met no state, or the ETag
+               changed); error, the reassembly entry is released by the error path *)
+            if refuse_restart isb1 (psize / size szx) sent then (with_receiving e2 (tdel (receiving e2) key), Fail, [])
+            else
             let sm :=
               if isb1 then
                 {| mcode := Continue; mtok := key; mb1 := Some {| bszx := szx; bnum := bnum b; bmore := bmore b |};
@@ -202,6 +214,9 @@ Section Handle.
       end
     end.
 
+  Definition process_received (e : ep) (r : msg) (maxszx : Z) (isb1 : bool) : ep * outcome * list msg :=
+    process_received_s e r maxszx isb1 (get_sent_request e (mtok r)).
+
   (* wantsToBeReceived *)
   Definition wants_to_be_received (r : msg) : bool :=
     let has1 := match mb1 r with Some _ => true | None => false end in
@@ -211,7 +226,7 @@ Section Handle.
     else negb (mcode r =? Continue).
 
   (* handleReceivedMessage *)
-  Definition handle_received (e : ep) (r : msg) : ep * outcome * list msg :=
+  Definition handle_received_s (e : ep) (r : msg) (sent : option msg) : ep * outcome * list msg :=
     let maxszx := eszx e in
     let start := {| bszx := maxszx; bnum := 0; bmore := true |} in
     if (mcode r =? 0) || ((225 <=? mcode r) && (mcode r <=? 229)) then (e, Out (app (mtok r) r), [r])
@@ -223,11 +238,13 @@ Section Handle.
     else
       let isb1 := is_upload (mcode r) in
       let mx := fit (if isb1 then mb1 r else mb2 r) maxszx in
-      let '(e1, o, d) := process_received e r mx isb1 in
+      let '(e1, o, d) := process_received_s e r mx isb1 sent in
       match o with
       | Fail => (e1, Fail, d)
       | Out w => let '(e2, o2) := start_sending e1 w mx (emax e) start in (e2, o2, d)
       end.
+  Definition handle_received (e : ep) (r : msg) : ep * outcome * list msg :=
+    handle_received_s e r (get_sent_request e (mtok r)).
 
   (* continueSendingMessage + the clean-up in Handle; second component: error reported *)
   Definition continue_sending (e : ep) (r : msg) (orig : msg) : ep * option msg * bool :=
@@ -259,6 +276,13 @@ Section Handle.
     | None => received
     end.
 End Handle.
+
+(* after unfolding handle_received: show the call of processReceivedMessage as [process_received] again *)
+Ltac fold_pr :=
+  repeat match goal with
+  | |- context [process_received_s ?a ?e ?r ?m ?b (get_sent_request ?e (mtok ?r))] =>
+    change (process_received_s a e r m b (get_sent_request e (mtok r))) with (process_received a e r m b)
+  end.
 
 (* Do: registers the request and produces the first wire message; None = Do returns an error at once *)
 Definition do_start (e : ep) (r : msg) : ep * option msg :=
